@@ -452,7 +452,7 @@ pub fn run_tapes(run: &mut Run, lanes: usize, cases: u32, tape_max: usize, check
                                 let (t0, f0) = first_failure.borrow_mut().take().unwrap_or((tape.clone(), Failure::new("unknown", "?")));
                                 let mut f = f0.clone();
                                 f.signature = format!("history-dependent:{}", f0.signature);
-                                f.msg = format!("result depends on what was loaded/called before on the same thread (the case fails within the run but passes alone): {}", f0.msg);
+                                f.msg = format!("result depends on what was loaded/called before on the same thread, or on thread timing (the case fails within the run but passes when run again alone): {}", f0.msg);
                                 Some(Violation { case: json!({ "tape": t0, "history_dependent": true }), failure: f })
                             }
                         }
